@@ -210,3 +210,223 @@ def samefn(order=('A', 'B')):
 
 def perms(names):
     return [list(p) for p in itertools.permutations(names)]
+
+
+# =========================================================================== feature matrix M1
+P_KINDS = ('sleep', 'raise', 'sync_raise', 'sync_ret', 'ff', 'ff_raise', 'await', 'await_then', 'sleep_ff')
+C_KINDS = ('ret', 'sleep', 'raise', 'two', 'awaitG')
+WILD = ('none', 'A', 'B-only')
+MAINS = ('await', 'redispatch')
+TIMEOUTS = ('60', 'None')
+
+
+def _p_script(kind, i):
+    dv = 'd1' if i == 0 else 'd3'
+    r = f'p{i}'
+    return {
+        'sleep': ([['sleep', dv], ['ret', r]], {}),
+        'raise': ([['sleep', dv], ['raise', 'ValueError']], {}),
+        'sync_raise': ([['raise', 'KeyError']], {'sync': True}),
+        'sync_ret': ([['ret', r]], {'sync': True}),
+        'ff': ([['disp', 'A', 'C', 'C_{inv}'], ['sleep', dv], ['ret', r]], {}),
+        'ff_raise': ([['disp', 'A', 'C', 'C_{inv}'], ['raise', 'ValueError']], {}),
+        'await': ([['sleep', dv], ['dispawait', 'A', 'C', 'C_{inv}'], ['ret', r]], {}),
+        'await_then': ([['dispawait', 'A', 'C', 'C_{inv}'], ['disp', 'A', 'L', 'L_{inv}'], ['sleep', dv], ['ret', r]], {}),
+        'sleep_ff': ([['sleep', dv], ['disp', 'A', 'C', 'C_{inv}'], ['read_bus'], ['ret', r]], {}),
+    }[kind]
+
+
+def matrix1(par, ph, ch, wild, mainkind, timeout):
+    """one (optionally parallel) bus A with two handlers on the root P (kinds ph), child handlers ch, optional wildcard
+    handler on A or a wildcard-only observer bus B, unrelated noise, optional re-dispatch of the completed root."""
+    handlers = []
+    for i, k in enumerate(ph):
+        sc, opts = _p_script(k, i)
+        handlers.append(['A', 'P', f'hP{i}', sc, opts])
+    if ch == 'ret':
+        handlers.append(['A', 'C', 'hC0', [['ret', 'c']], {'sync': True}])
+    elif ch == 'sleep':
+        handlers.append(['A', 'C', 'hC0', [['sleep', 'd2'], ['ret', 'c']]])
+    elif ch == 'raise':
+        handlers.append(['A', 'C', 'hC0', [['raise', 'Custom']]])
+    elif ch == 'two':
+        handlers.append(['A', 'C', 'hC0', [['sleep', 'd2'], ['ret', 'c']]])
+        handlers.append(['A', 'C', 'hC1', [['raise', 'ValueError']], {'sync': True}])
+    elif ch == 'awaitG':
+        handlers.append(['A', 'C', 'hC0', [['dispawait', 'A', 'G', 'G_{inv}'], ['sleep', 'd2'], ['ret', 'c']]])
+    handlers.append(['A', 'G', 'hG0', [['ret', 'g']], {'sync': True}])
+    handlers.append(['A', 'L', 'hL0', [['ret', 'l']], {'sync': True}])
+    handlers.append(['A', 'X', 'hX0', [['ret', 'x']]])
+    buses = ['A']
+    actors = {}
+    reals = {'d1': D, 'd2': ['0', '1/5'], 'd3': D}
+    if wild == 'A':
+        handlers.append(['A', '*', 'hW', [['ret', 'w']]])
+    elif wild == 'B-only':
+        buses = ['A', 'B']
+        handlers.append(['B', '*', 'hWB', [['ret', 'wb']]])
+        reals['t1'] = ['0', '2/5']
+        actors = {'n': [['sleep', 't1'], ['root', 'B', 'X', 'X2']]}
+    main = [['root', 'A', 'P', 'P1'], ['root', 'A', 'X', 'X1'], ['await', 'P1'], ['obs', 'after_await', 'P1']]
+    if mainkind == 'redispatch':
+        main += [['idle', 'A'], ['redispatch', 'A', 'P1']]
+    main += [['idle', b] for b in buses] + [['obs_all', 'end']]
+    cfg = dict(buses=buses, order=buses, parallel=['A'] if par else [], reals=reals, handlers=handlers, main=main, actors=actors,
+               horizon=6, timeouts={'P1': None if timeout == 'None' else timeout},
+               features=dict(par=par, ph=list(ph), ch=ch, wild=wild, main=mainkind, timeout=timeout))
+    # drop unused reals (keeps the domain minimal)
+    used = json_dumps(cfg['handlers']) + json_dumps(actors)
+    for v in list(reals):
+        if f'"{v}"' not in used:
+            del reals[v]
+    return cfg
+
+
+def json_dumps(x):
+    import json
+    return json.dumps(x)
+
+
+def matrix1_id(par, ph, ch, wild, mainkind, timeout):
+    return f'm1/{"par" if par else "ser"}/{ph[0]}+{ph[1]}/{ch}/{wild}/{mainkind}/to={timeout}'
+
+
+def pairwise(domains, must=()):
+    """greedy pairwise covering array over `domains` (list of value tuples); `must` rows are always included."""
+    import itertools
+    rows = [tuple(m) for m in must]
+    n = len(domains)
+    need = set()
+    for i, j in itertools.combinations(range(n), 2):
+        for a in domains[i]:
+            for b in domains[j]:
+                need.add((i, a, j, b))
+    def cov(row):
+        return {(i, row[i], j, row[j]) for i, j in itertools.combinations(range(n), 2)}
+    for r in rows:
+        need -= cov(r)
+    allrows = list(itertools.product(*domains))
+    while need:
+        best, bc = None, -1
+        # deterministic scan with a stride to keep it fast
+        for r in allrows:
+            c = len(cov(r) & need)
+            if c > bc:
+                best, bc = r, c
+        rows.append(best)
+        need -= cov(best)
+    out = []
+    for r in rows:
+        if r not in out:
+            out.append(r)
+    return out
+
+
+PH_PAIRS = (('sleep', 'sleep'), ('raise', 'sleep'), ('sleep', 'raise'), ('sync_raise', 'sleep'), ('await', 'sleep'), ('await', 'raise'),
+            ('await_then', 'sleep'), ('await_then', 'sync_ret'), ('ff', 'sleep'), ('ff_raise', 'sleep'), ('sleep_ff', 'sleep_ff'),
+            ('sleep_ff', 'raise'), ('await', 'sleep_ff'), ('ff', 'ff_raise'), ('raise', 'sync_ret'), ('await_then', 'raise'))
+
+
+def matrix1_rows(tier):
+    doms = [(False, True), PH_PAIRS, C_KINDS, WILD, MAINS, TIMEOUTS]
+    must = [
+        (True, ('raise', 'sleep'), 'ret', 'none', 'await', '60'),
+        (True, ('sleep_ff', 'sleep_ff'), 'sleep', 'none', 'await', 'None'),
+        (False, ('await_then', 'sleep'), 'raise', 'none', 'await', '60'),
+        (False, ('raise', 'sleep'), 'ret', 'none', 'redispatch', '60'),
+        (False, ('await', 'sleep'), 'awaitG', 'A', 'await', '60'),
+        (False, ('sleep', 'sleep'), 'ret', 'B-only', 'await', '60'),
+        (True, ('await', 'sleep'), 'sleep', 'B-only', 'await', '60'),
+    ]
+    rows = pairwise(doms, must)
+    if tier == 'thorough':
+        import itertools
+        import random
+        rng = random.Random(12345)
+        allrows = list(itertools.product(*doms))
+        rng.shuffle(allrows)
+        for r in allrows[:400]:
+            if r not in rows:
+                rows.append(r)
+    return rows
+
+
+# =========================================================================== feature matrix M2 (time-outs)
+M2_PH = ('sleep', 'await', 'await_first', 'ff', 'ff_await_later')
+M2_SECOND = ('none', 'sync_ret', 'sleep')
+M2_CH = ('ret', 'raise', 'sleep', 'two', 'two_raise_first', 'awaitG', 'ffG')
+M2_GH = ('ret', 'two')
+
+
+def matrix2(par, ph, second, ch, gh, T='1/4'):
+    """root P with event_timeout T; its first handler follows ph; children C / grandchildren G with several handler set-ups
+    (a second handler that has not started when the time-out fires, an errored first handler, ...); a later event L."""
+    from fractions import Fraction
+    hi = str(2 * Fraction(T) + Fraction(1, 10))
+    reals = {'d1': ['0', hi], 'd2': ['0', hi], 'd4': ['0', hi]}
+    hp = {
+        'sleep': [['sleep', 'd1'], ['ret', 'p']],
+        'await': [['sleep', 'd1'], ['dispawait', 'A', 'C', 'C1'], ['sleep', '1/10'], ['ret', 'p']],
+        'await_first': [['dispawait', 'A', 'C', 'C1'], ['sleep', 'd1'], ['ret', 'p']],
+        'ff': [['disp', 'A', 'C', 'C1'], ['sleep', 'd1'], ['ret', 'p']],
+        'ff_await_later': [['disp', 'A', 'C', 'C1'], ['sleep', 'd1'], ['await', 'C1'], ['ret', 'p']],
+    }[ph]
+    handlers = [['A', 'P', 'hP', hp]]
+    if second == 'sync_ret':
+        handlers.append(['A', 'P', 'hP2', [['ret', 'p2']], {'sync': True}])
+    elif second == 'sleep':
+        handlers.append(['A', 'P', 'hP2', [['sleep', '1/20'], ['ret', 'p2']]])
+    if ch == 'ret':
+        handlers.append(['A', 'C', 'hC', [['ret', 'c']], {'sync': True}])
+    elif ch == 'raise':
+        handlers.append(['A', 'C', 'hC', [['raise', 'ValueError']], {'sync': True}])
+    elif ch == 'sleep':
+        handlers.append(['A', 'C', 'hC', [['sleep', 'd2'], ['ret', 'c']]])
+    elif ch == 'two':
+        handlers.append(['A', 'C', 'hC', [['sleep', 'd2'], ['ret', 'c']]])
+        handlers.append(['A', 'C', 'hC2', [['ret', 'c2']], {'sync': True}])
+    elif ch == 'two_raise_first':
+        handlers.append(['A', 'C', 'hC', [['raise', 'ValueError']], {'sync': True}])
+        handlers.append(['A', 'C', 'hC2', [['sleep', 'd2'], ['ret', 'c2']]])
+    elif ch == 'awaitG':
+        handlers.append(['A', 'C', 'hC', [['dispawait', 'A', 'G', 'G1'], ['sleep', 'd2'], ['ret', 'c']]])
+    elif ch == 'ffG':
+        handlers.append(['A', 'C', 'hC', [['disp', 'A', 'G', 'G1'], ['sleep', 'd2'], ['ret', 'c']]])
+    if ch in ('awaitG', 'ffG'):
+        handlers.append(['A', 'G', 'hG', [['sleep', 'd4'], ['ret', 'g']]])
+        if gh == 'two':
+            handlers.append(['A', 'G', 'hG2', [['ret', 'g2']], {'sync': True}])
+    handlers.append(['A', 'L', 'hL', [['ret', 'l']], {'sync': True}])
+    main = [['root', 'A', 'P', 'P1'], ['root', 'A', 'L', 'L1'], ['idle', 'A'], ['obs_all', 'after_idle']]
+    cfg = dict(buses=['A'], order=['A'], parallel=['A'] if par else [], reals=reals, handlers=handlers, main=main, horizon=6, settle='1/2',
+               actors={'w': [['await', 'P1'], ['obs', 'after_await', 'P1']]},
+               timeouts={'P1': T}, T=T, features=dict(par=par, ph=ph, second=second, ch=ch, gh=gh), m2=True)
+    used = json_dumps(handlers)
+    for v in list(reals):
+        if f'"{v}"' not in used:
+            del reals[v]
+    return cfg
+
+
+def matrix2_id(par, ph, second, ch, gh, T='1/4'):
+    return f'm2/{"par" if par else "ser"}/{ph}/{second}/{ch}/{gh}'
+
+
+def matrix2_rows(tier):
+    doms = [(False, True), M2_PH, M2_SECOND, M2_CH, M2_GH]
+    must = [
+        (False, 'await', 'sync_ret', 'awaitG', 'two'),
+        (False, 'await', 'none', 'ffG', 'two'),
+        (True, 'await', 'none', 'two', 'ret'),
+        (False, 'ff_await_later', 'none', 'two_raise_first', 'ret'),
+        (False, 'await_first', 'sync_ret', 'raise', 'ret'),
+    ]
+    rows = pairwise(doms, must)
+    # gh only matters with grandchildren
+    rows = [r for r in rows if r[3] in ('awaitG', 'ffG') or r[4] == 'ret']
+    if tier == 'thorough':
+        import itertools
+        for r in itertools.product(*doms):
+            if (r[3] in ('awaitG', 'ffG') or r[4] == 'ret') and r not in rows:
+                rows.append(r)
+    return rows
